@@ -3,6 +3,7 @@
 SPECIFICATION Spec
 CONSTANTS
   Unchecked = {}
+  FullStar = FALSE
   MutEach = TRUE
   NoBodyAfterError = TRUE
   Roles = {"leader"}
